@@ -11,14 +11,15 @@ ID = 'C12'
 LEVEL = 'model_checking'
 RULE = ('E1 enumeration: 3-5 level-0 cells (numbers not in card order); per cell the importance source in '
         '{IMP:N=v, IMP:N,P=v, IMP:N=v IMP:P=w, IMP:P=w IMP:N=v, none}; data cards imp:n (and optionally imp:p) '
-        'written expanded or with nR / nM / nI shorthand; values in {0, 1, 2}; oracle: set of VOLU ids = cells '
+        'written expanded or with nR / nM / nI shorthand; values in {0, 1, 2, 0.25, 0.5} (fractional importances are non-zero); oracle: set of VOLU ids = cells '
         'whose maximum importance over particle types is non-zero, NOTE line lists exactly the others; '
         'non-trivial = at least one cell dropped and one kept; distinct = deck text')
 ASSUMPTIONS = ['importance of a cell = maximum over the particle types given (property statement)',
                'decks in which every cell has zero importance are not generated (nothing to convert)']
 
 NUMS = [10, 5, 30, 2, 17]
-VALS = [1, 0, 2]
+VALS = [1, 0, 2, 0.25]
+PVALS = [0, 1, 2, 0.5]
 
 
 class St(Deck):
@@ -26,8 +27,8 @@ class St(Deck):
 
 
 def compress(vals, mode):
-    """Shorthand spelling of a list of non-negative ints."""
-    toks = [str(v) for v in vals]
+    """Shorthand spelling of a list of non-negative numbers."""
+    toks = [fmtnum(v) for v in vals]
     if mode == 'expanded':
         return toks
     out = []
@@ -49,31 +50,35 @@ def compress(vals, mode):
             i += 1
             continue
         if mode in ('I', 'all') and out and i + 1 < n and vals[i - 1] + 2 == vals[i + 1] and v == vals[i - 1] + 1:
-            out.append('1i'); out.append(str(vals[i + 1]))
+            out.append('1i'); out.append(fmtnum(vals[i + 1]))
             i += 2
             continue
         if mode in ('I', 'all') and out and i + 1 < n and vals[i - 1] - 2 == vals[i + 1] and v == vals[i - 1] - 1:
-            out.append('i'); out.append(str(vals[i + 1]))
+            out.append('i'); out.append(fmtnum(vals[i + 1]))
             i += 2
             continue
-        out.append(str(v))
+        out.append(fmtnum(v))
         i += 1
     return out
 
 
-SOURCES = ['imp:n=%(n)d', 'none', 'imp:n,p=%(n)d', 'imp:n=%(n)d imp:p=%(p)d', 'imp:p=%(p)d imp:n=%(n)d',
-           'IMP:N %(n)d', 'imp:n=%(n)d $ imp:n=7',
+SOURCES = ['imp:n=%(n)s', 'none', 'imp:n,p=%(n)s', 'imp:n=%(n)s imp:p=%(p)s', 'imp:p=%(p)s imp:n=%(n)s',
+           'IMP:N %(n)s', 'imp:n=%(n)s $ imp:n=7',
            # the cell is a copy of the previous one moved by one slab width; only the listed particle types change
-           'like:imp:n=%(n)d', 'like:imp:n,p=%(n)d', 'like:imp:n=%(n)d imp:p=%(p)d', 'like:imp:p,n=%(n)d',
+           'like:imp:n=%(n)s', 'like:imp:n,p=%(n)s', 'like:imp:n=%(n)s imp:p=%(p)s', 'like:imp:p,n=%(n)s',
            'like:']
+
+
+def fmtnum(v):
+    return '%g' % v
 
 
 def per_particle(text, n, p):
     """importance per particle type given by the IMP keywords in `text`"""
     out = {}
-    for m in re.finditer(r'imp:([a-z,]+)[ =](\d+)', text.split('$')[0].lower()):
+    for m in re.finditer(r'imp:([a-z,]+)[ =]([0-9.]+)', text.split('$')[0].lower()):
         for pt in m.group(1).split(','):
-            out[pt] = int(m.group(2))
+            out[pt] = float(m.group(2))
     return out
 
 
@@ -85,7 +90,7 @@ def build_n(ncells):
         src = [ch.choose('src%d' % i, SOURCES) for i in range(ncells)]
         nvals = [ch.choose('n%d' % i, VALS) if src[i] != 'like:' else 0 for i in range(ncells)]
         # the photon value is a choice point only where it can matter
-        pvals = [ch.choose('p%d' % i, [0, 1, 2]) if ('%(p)' in src[i] or src[i] == 'none') else 0
+        pvals = [ch.choose('p%d' % i, PVALS) if ('%(p)' in src[i] or src[i] == 'none') else 0
                  for i in range(ncells)]
         st.expected = {}
         any_none = False
@@ -103,12 +108,12 @@ def build_n(ncells):
             elif s.startswith('like:'):
                 if i == 0 or src[i - 1] == 'none' or src[i - 1].startswith('like:'):
                     ch.reject('LIKE needs a preceding cell with cell-card importances')
-                but = s[5:] % dict(n=nvals[i], p=pvals[i])
+                but = s[5:] % dict(n=fmtnum(nvals[i]), p=fmtnum(pvals[i]))
                 card = '%d like %d but trcl=(2 0 0) %s' % (num, NUMS[i - 1], but)
                 d = dict(dicts[i - 1])
                 d.update(per_particle(but, nvals[i], pvals[i]))
             else:
-                text = s % dict(n=nvals[i], p=pvals[i])
+                text = s % dict(n=fmtnum(nvals[i]), p=fmtnum(pvals[i]))
                 card += ' ' + text
                 d = per_particle(text, nvals[i], pvals[i])
             dicts.append(d)
